@@ -150,6 +150,7 @@ type VC struct {
 	pure     int
 	noFacts  int
 	onlyOpcase string
+	pruned   int // branches cut because their path condition is unsatisfiable
 	atUsed   map[string]int // site assertions (at closure / at call) that were applicable at least once
 	selfWritten map[string]bool // heap keys this function may write itself
 	forallAlt map[string][]string // index-quantified forall -> equivalent cell-triggered variants
